@@ -21,6 +21,10 @@ PathsDemands(e) ==
   LET n == e.n
       d == FmtRoman(n, rFmt) IN
   <<
+    <<"H.sib",      e.sibtext = FmtRoman(e.sibn, 0)>>,
+    \* one read buffer: the standard numeral of n, then refilled with a neighbour's numeral and parsed again
+    <<"C02.reuse",  ((rMax = 0 \/ Len(FmtRoman(n, 0)) <= rMax) => e.reuse[1] = n)
+                    /\ ((rMax = 0 \/ Len(e.sibtext) <= rMax) => e.reuse[2] = e.sibn)>>,
     <<"C02.mtext",  e.mt = d>>,
     <<"C02.stable", e.mt2 = d>>,
     <<"C02.held",   e.held = d>>,
